@@ -71,10 +71,11 @@ impl RawParameters {
             entered = definition.trim().to_string();
             globals.remove("_name");
             for (key, mut value) in definition.split_into_parameters() {
-                // An argument referring to the caller's parameters ('$name') is resolved
+                // An argument referring to the caller's parameters ('$name', or '(default)',
+                // which stands for the caller's value for the same key) is resolved
                 // here, in the scope of the caller, so it survives any clash with the
                 // names used further down, whatever their lexical order
-                if value.trim_start().starts_with('$') {
+                if value.trim_start().starts_with('$') || value.trim_start().starts_with('(') {
                     let argument = BTreeMap::from([(key.clone(), value.clone())]);
                     value = match super::parsed_parameters::chase(&self.globals, &argument, &key) {
                         Ok(Some(resolved)) => resolved,
